@@ -18,6 +18,8 @@ use std::time::{Duration, Instant};
 pub enum COp { Poll { fresh: bool }, Set(u64), Get, Drop, Up,
                /// free-running rounds only (no ledger): `Subscriber::next_now`, `SharedObservable::set_if_not_eq`
                NextNow, Sne(u64), Shne(u64),
+               /// `update(|v| *v += k)` (forced schedules and free-running rounds)
+               Upd(u64),
                /// `next_ref()` awaited again and again until the value `until` has been seen / `set(1..=n)` in order
                NextRefs { until: u64 }, SetSeq(u64),
                /// hold the write guard for a moment without writing / `subscribe()` and poll the new subscriber once
@@ -28,6 +30,7 @@ impl COp {
     fn text(&self) -> String {
         match self { COp::Poll { fresh: false } => "poll".into(), COp::Poll { fresh: true } => "pollf".into(), COp::Set(v) => format!("set:{v}"),
             COp::Get => "get".into(), COp::Drop => "drop".into(), COp::Up => "up".into(), COp::NextNow => "nextnow".into(), COp::Sne(v) => format!("sne:{v}"), COp::Shne(v) => format!("shne:{v}"),
+            COp::Upd(k) => format!("upd:{k}"),
             COp::NextRefs { until } => format!("nextrefs:{until}"), COp::SetSeq(n) => format!("setseq:{n}"),
             COp::HoldWrite => "holdwrite".into(), COp::SubPoll => "subpoll".into(),
             COp::UpdPoll(n) => format!("updpoll:{n}"), COp::Churn(n) => format!("churn:{n}") }
@@ -40,7 +43,7 @@ impl COp {
 #[derive(Clone, Debug, PartialEq)]
 enum Pc { Start, PollBeforeMeta, PollHoldingMeta, PollAfterCheck, WriteBeforeNotify, WriteAfterNotify, CloseBeforeMeta, CloseHoldingMeta, DropAfterDecision, UpgradeBetween, Finished }
 #[derive(Clone)]
-struct Ledger { pcs: Vec<Pc>, ops: Vec<COp>, readers: Vec<usize>, writer: Option<usize>, meta: Option<usize>, nc: usize, st: usize, atomic_drop: bool }
+struct Ledger { pcs: Vec<Pc>, ops: Vec<COp>, readers: Vec<usize>, writer: Option<usize>, meta: Option<usize>, nc: usize, st: usize, atomic_drop: bool, value: u64 }
 impl Ledger {
     fn adv(&mut self, t: usize) -> bool {
         let pc = self.pcs[t].clone();
@@ -49,9 +52,18 @@ impl Ledger {
             (COp::Poll { .. }, Pc::PollBeforeMeta) => { if self.meta.is_some() { return false; } self.meta = Some(t); self.pcs[t] = Pc::PollHoldingMeta; }
             (COp::Poll { .. }, Pc::PollHoldingMeta) => self.pcs[t] = Pc::PollAfterCheck,
             (COp::Poll { .. }, Pc::PollAfterCheck) => { self.meta = None; self.readers.retain(|x| *x != t); self.pcs[t] = Pc::Finished; }
-            (COp::Set(_), Pc::Start) => { if self.writer.is_some() || !self.readers.is_empty() { return false; } self.writer = Some(t); self.pcs[t] = Pc::WriteBeforeNotify; }
-            (COp::Set(_), Pc::WriteBeforeNotify) => self.pcs[t] = Pc::WriteAfterNotify,
-            (COp::Set(_), Pc::WriteAfterNotify) => { self.writer = None; self.pcs[t] = Pc::Finished; }
+            (COp::Set(v), Pc::Start) => { if self.writer.is_some() || !self.readers.is_empty() { return false; } self.writer = Some(t); self.value = *v; self.pcs[t] = Pc::WriteBeforeNotify; }
+            (COp::Set(_), Pc::WriteBeforeNotify) | (COp::Sne(_), Pc::WriteBeforeNotify) => self.pcs[t] = Pc::WriteAfterNotify,
+            (COp::Set(_), Pc::WriteAfterNotify) | (COp::Sne(_), Pc::WriteAfterNotify) | (COp::Upd(_), Pc::WriteAfterNotify) => { self.writer = None; self.pcs[t] = Pc::Finished; }
+            // set_if_not_eq: an equal value means lock, compare, unlock with no pause point in between
+            (COp::Sne(v), Pc::Start) => {
+                if self.writer.is_some() || !self.readers.is_empty() { return false; }
+                if self.value == *v { self.pcs[t] = Pc::Finished; } else { self.writer = Some(t); self.value = *v; self.pcs[t] = Pc::WriteBeforeNotify; }
+            }
+            // update: the closure and incr_version_and_wake run without a pause point in between
+            (COp::Upd(k), Pc::Start) => { if self.writer.is_some() || !self.readers.is_empty() { return false; } self.writer = Some(t); self.value += *k; self.pcs[t] = Pc::WriteAfterNotify; }
+            // next_now: outer read lock, metadata read lock, value; no pause point
+            (COp::NextNow, Pc::Start) => { if self.writer.is_some() || self.meta.is_some() { return false; } self.pcs[t] = Pc::Finished; }
             (COp::Get, Pc::Start) => { if self.writer.is_some() { return false; } self.pcs[t] = Pc::Finished; }
             (COp::Drop, Pc::Start) => {
                 let last = self.nc == 1;
@@ -123,6 +135,7 @@ fn worker(sh: Arc<Shared>, t: usize, op: COp, mut h: Handle, forced: bool, round
             (COp::NextNow, Handle::Sub(s, _, _)) => s.next_now().to_string(),
             (COp::Sne(v), Handle::Clone(o)) => fmt_opt(o.set_if_not_eq(*v)),
             (COp::Shne(v), Handle::Clone(o)) => fmt_opt(o.set_if_hash_not_eq(*v)),
+            (COp::Upd(k), Handle::Clone(o)) => { let k = *k; o.update(|v| *v += k); "-".into() }
             (COp::SetSeq(n), Handle::Clone(o)) => { for i in 1..=*n { o.set(i); } "-".into() }
             (COp::UpdPoll(n), Handle::Both(o, s, w)) => {
                 // every update of this thread is seen by this thread's subscriber on its next poll
@@ -199,7 +212,7 @@ fn setup(p: &Program) -> Setup {
             COp::Poll { fresh } => { let (f, w) = flag_waker(); n_subs += 1; Handle::Sub(if *fresh { root.subscribe_reset() } else { root.subscribe() }, f, w) }
             COp::NextNow | COp::NextRefs { .. } => { let (f, w) = flag_waker(); n_subs += 1; Handle::Sub(root.subscribe(), f, w) }
             COp::UpdPoll(_) => { let (_f, w) = flag_waker(); n_subs += 1; n_clones += 1; Handle::Both(root.clone(), root.subscribe(), w) }
-            COp::Set(_) | COp::Get | COp::Drop | COp::Sne(_) | COp::Shne(_) | COp::SetSeq(_) | COp::HoldWrite | COp::SubPoll | COp::Churn(_) => { n_clones += 1; Handle::Clone(root.clone()) }
+            COp::Set(_) | COp::Get | COp::Drop | COp::Sne(_) | COp::Shne(_) | COp::Upd(_) | COp::SetSeq(_) | COp::HoldWrite | COp::SubPoll | COp::Churn(_) => { n_clones += 1; Handle::Clone(root.clone()) }
             COp::Up => Handle::Weak(root.downgrade()),
         });
     }
@@ -212,7 +225,7 @@ fn setup(p: &Program) -> Setup {
 /// all maximal schedules of the program (DFS over the ledger): entries are (thread, expected-to-block)
 fn schedules(p: &Program, atomic_drop: bool, n_clones: usize, n_subs: usize, repolls: usize, cap: usize) -> Vec<Vec<(usize, bool)>> {
     let n = p.ops.len();
-    let l0 = Ledger { pcs: vec![Pc::Start; n], ops: p.ops.clone(), readers: vec![], writer: None, meta: None, nc: n_clones, st: n_clones + n_subs, atomic_drop };
+    let l0 = Ledger { pcs: vec![Pc::Start; n], ops: p.ops.clone(), readers: vec![], writer: None, meta: None, nc: n_clones, st: n_clones + n_subs, atomic_drop, value: p.init };
     let mut out = vec![];
     // state: ledger, prefix, inflight (thread that was released into a lock it cannot take yet), remaining re-polls per poll thread
     fn rec(l: &Ledger, pre: &mut Vec<(usize, bool)>, inflight: Option<usize>, rep: &mut Vec<usize>, out: &mut Vec<Vec<(usize, bool)>>, cap: usize) {
@@ -229,9 +242,11 @@ fn schedules(p: &Program, atomic_drop: bool, n_clones: usize, n_subs: usize, rep
             if fin && !(matches!(l.ops[t], COp::Poll { .. }) && rep[t] > 0) { continue; }
             // std's RwLock makes new readers wait while a writer is queued: do not schedule a fresh read-lock
             // acquisition while the in-flight thread is a writer waiting for the lock
-            let wants_read = matches!((&l.ops[t], &l.pcs[t]), (COp::Poll { .. }, Pc::Start) | (COp::Poll { .. }, Pc::Finished) | (COp::Get, Pc::Start))
+            let wants_read = matches!((&l.ops[t], &l.pcs[t]), (COp::Poll { .. }, Pc::Start) | (COp::Poll { .. }, Pc::Finished) | (COp::Get, Pc::Start) | (COp::NextNow, Pc::Start))
                 || (matches!((&l.ops[t], &l.pcs[t]), (COp::Drop, Pc::Start)) && l.nc == 1);
-            if wants_read && inflight.map(|w| matches!(l.ops[w], COp::Set(_))).unwrap_or(false) { continue; }
+            if wants_read && inflight.map(|w| matches!(l.ops[w], COp::Set(_) | COp::Sne(_) | COp::Upd(_))).unwrap_or(false) { continue; }
+            // a `next_now` released while the metadata lock is held blocks on it holding the outer read lock: no writer can
+            // start anyway (whoever holds the metadata lock holds the outer read lock), nothing further to exclude
             if l.can(t) {
                 any = true;
                 let mut l2 = l.clone(); l2.adv(t);
@@ -293,7 +308,7 @@ fn finish(sink: &mut Sink, p: &Program, joined: Vec<(Handle, Vec<String>, Option
                 let mut vals: Vec<u64> = p.ops.iter().filter_map(|o| match o { COp::Set(v) | COp::Sne(v) => Some(*v), _ => None }).collect();
                 vals.push(p.init);
                 let n0 = vals.len(); vals.sort(); vals.dedup();
-                if vals.len() == n0 {
+                if vals.len() == n0 && !p.ops.iter().any(|o| matches!(o, COp::Upd(_))) {
                     let mut g2 = got.clone(); g2.sort(); g2.dedup();
                     if g2.len() != got.len() { sink.oracle_fail("C04", &format!("thread {t}: the subscriber received {got:?}: one update delivered twice (value and observed version do not belong together)")); }
                 }
@@ -352,6 +367,7 @@ fn finish(sink: &mut Sink, p: &Program, joined: Vec<(Handle, Vec<String>, Option
             }
             (COp::Set(v), Handle::Clone(_)) => { owners += 1; written.push(*v); if let Some(r) = results.first() { if let Ok(x) = r.parse() { prevs.push(x); } } }
             (COp::Get, Handle::Clone(_)) => { owners += 1; }
+            (COp::Upd(_), Handle::Clone(_)) => { owners += 1; }
             (COp::Drop, _) => {}
             (COp::Up, _) => {}
             _ => {}
@@ -367,7 +383,13 @@ fn finish(sink: &mut Sink, p: &Program, joined: Vec<(Handle, Vec<String>, Option
     // C04: the previous values returned by all sets plus the final value are the initial value plus all values written
     let mut lhs = prevs.clone(); lhs.push(value); lhs.sort();
     let mut rhs = written.clone(); rhs.push(p.init); rhs.sort();
-    if lhs != rhs && !written.is_empty() {
+    let upds: Vec<u64> = p.ops.iter().filter_map(|o| if let COp::Upd(k) = o { Some(*k) } else { None }).collect();
+    if !upds.is_empty() {
+        // C04: no update closure's effect is lost (programs whose only writers are updates)
+        if !p.ops.iter().any(|o| matches!(o, COp::Set(_) | COp::Sne(_) | COp::Shne(_) | COp::SetSeq(_) | COp::UpdPoll(_))) && value != p.init + upds.iter().sum::<u64>() {
+            sink.oracle_fail("C04", &format!("updates lost: initial value {} and update closures adding {upds:?} end on {value}", p.init));
+        }
+    } else if lhs != rhs && !written.is_empty() {
         sink.oracle_fail("C04", &format!("set chain broken: returned previous values {prevs:?} + final {value} vs initial {} + written {written:?}", p.init));
     }
     if emit { sink.line("cfinal", &format!("value={value} closed={} woken={}", closed as u8, fmt_list(&woken))); }
@@ -378,7 +400,7 @@ static TIMEOUTS: std::sync::atomic::AtomicUsize = std::sync::atomic::AtomicUsize
 fn run_forced(sink: &mut Sink, id: &str, p: &Program, atomic_drop: bool, sched: &[(usize, bool)], repolls: usize) {
     sink.case(id);
     let st = setup(p);
-    let mut led = Ledger { pcs: vec![Pc::Start; p.ops.len()], ops: p.ops.clone(), readers: vec![], writer: None, meta: None, nc: st.n_clones, st: st.n_clones + st.n_subs, atomic_drop };
+    let mut led = Ledger { pcs: vec![Pc::Start; p.ops.len()], ops: p.ops.clone(), readers: vec![], writer: None, meta: None, nc: st.n_clones, st: st.n_clones + st.n_subs, atomic_drop, value: p.init };
     let ops: Vec<String> = p.ops.iter().map(|o| o.text()).collect();
     sink.line(&format!("cnew {} {} {} {} {}", atomic_drop as u8, p.init, st.n_clones, st.n_subs, ops.join(";")), "ok");
     let n = p.ops.len();
@@ -486,6 +508,12 @@ pub fn programs() -> Vec<(&'static str, Program, usize)> {
         ("poll|set|set", Program { init: 1, ops: vec![pl(false), COp::Set(5), COp::Set(6)], extra_clones: 0 }, 0),
         ("poll|drop|drop", Program { init: 1, ops: vec![pl(false), COp::Drop, COp::Drop], extra_clones: 0 }, 0),
         ("pollf|get|set", Program { init: 1, ops: vec![pl(true), COp::Get, COp::Set(7)], extra_clones: 1 }, 0),
+        ("nextnow|set", Program { init: 1, ops: vec![COp::NextNow, COp::Set(5)], extra_clones: 0 }, 0),
+        ("poll|nextnow|set", Program { init: 1, ops: vec![pl(false), COp::NextNow, COp::Set(5)], extra_clones: 0 }, 0),
+        ("poll|sne|sne", Program { init: 1, ops: vec![pl(false), COp::Sne(7), COp::Sne(7)], extra_clones: 0 }, 1),
+        ("poll|sne.eq|set", Program { init: 1, ops: vec![pl(false), COp::Sne(1), COp::Set(1)], extra_clones: 0 }, 0),
+        ("upd|upd|get", Program { init: 1, ops: vec![COp::Upd(3), COp::Upd(4), COp::Get], extra_clones: 0 }, 0),
+        ("poll|upd|nextnow", Program { init: 1, ops: vec![pl(false), COp::Upd(2), COp::NextNow], extra_clones: 0 }, 1),
     ]
 }
 
@@ -497,7 +525,6 @@ pub fn free_programs() -> Vec<(&'static str, Program)> {
         ("drop|drop|drop", Program { init: 1, ops: vec![COp::Drop, COp::Drop, COp::Drop], extra_clones: 0 }),
         ("poll|droplast.free", Program { init: 1, ops: vec![pl(false), COp::Drop], extra_clones: 0 }),
         ("poll|poll|droplast", Program { init: 1, ops: vec![pl(false), pl(false), COp::Drop], extra_clones: 0 }),
-        ("nextnow|set", Program { init: 1, ops: vec![COp::NextNow, COp::Set(5)], extra_clones: 0 }),
         ("nextnow|set|set", Program { init: 1, ops: vec![COp::NextNow, COp::Set(5), COp::Set(6)], extra_clones: 0 }),
         ("sne|sne", Program { init: 1, ops: vec![COp::Sne(7), COp::Sne(7)], extra_clones: 0 }),
         ("sne|sne|sne", Program { init: 1, ops: vec![COp::Sne(7), COp::Sne(7), COp::Sne(7)], extra_clones: 0 }),
